@@ -14,6 +14,15 @@ from .common import Ctx, surface, api_key, describe_path, ENTITY_CLASSES
 from nixsa.px import explore, Config
 from nixsa.values import show, is_const, subterms, params_of
 
+def called_names(t):
+    """leaf names of every function/method applied anywhere inside an abstract term"""
+    out = set()
+    for x in subterms(t):
+        if x and x[0] in ("call", "mcall", "lres") and isinstance(x[1], str):
+            out.add(x[1].split(":")[-1].split(".")[-1].lstrip("_"))
+    return out
+
+
 ROOT = ("attr", ("attr", ("self",), "_file"), "_h5group")
 OWN = ("attr", ("self",), "_h5group")
 
@@ -53,7 +62,7 @@ def run(M, rep, tier, only=None):
             if ".id" not in txt and "entity_id" not in txt:
                 bad = (p, "the id list %s does not derive from the deleted item's id" % txt[:80])
                 break
-            if tree and tree not in txt:
+            if tree and tree.lstrip("_") not in called_names(eid.t):
                 bad = (p, "the id list does not include the item's subtree (%s)" % tree)
                 break
             if cn == "SourceContainer" and txt.count("id") < 2:
@@ -113,8 +122,9 @@ def run(M, rep, tier, only=None):
                           key, ctx.fx.key(bad[1]) if bad else ""), site=bad[1].site if bad else None,
                       detail=describe_path(bad[0]) if bad else None)
 
-    # ---- R4 raw
-    rcfg = Config(M, mode="raw")
+    # ---- R4: delete_all analysed with the other layer members kept as storage events
+    from nixsa.layer import layer_config
+    rcfg = layer_config(M)
     rcfg.compose = False
     hg = M.classes.get("H5Group")
     f = hg.methods.get("delete_all") if hg else None
@@ -126,19 +136,24 @@ def run(M, rep, tier, only=None):
         visit = False
         for p in explore(rcfg, f, "H5Group", None, 4000):
             for e in p.events:
-                if e.kind == "raw" and e.op.endswith("visititems") and e.recv.t[0] == "attr" and e.recv.t[1] == ("self",):
+                if e.kind == "raw" and e.op.endswith("visititems") and e.recv is not None and \
+                        e.recv.t[0] == "attr" and e.recv.t[1] == ("self",):
                     visit = True
-                if e.kind == "raw" and e.op.endswith("__delitem__"):
+                if e.kind in ("raw", "layer") and e.op.split(".")[-1] in ("__delitem__", "delete", "pop"):
                     ndel += 1
                     ok = False
                     for c, pol in e.ctrl:
-                        s = show(c.t)
-                        if pol and "entity_id" in s and "eid" in params_of(c.t):
-                            ok = True
+                        t = c.t
+                        if pol and t[0] == "cmp" and t[1] == "in" and t[2][0] == "rd" and t[2][1] == "attr" \
+                                and t[2][3] == ("const", "entity_id") and "eid" in params_of(t[3]):
+                            child = t[2][2]
+                            # the unlinked name must be the name of the very child whose id was tested
+                            if e.key is not None and any(x == child for x in subterms(e.key.t)):
+                                ok = True
                     if not ok:
                         bad = (p, e)
         rep.check(R4, "H5Group.delete_all", bad is None and ndel > 0 and visit,
-                  "delete_all unlinks a child that was not selected by `entity_id in eid`" if bad else
+                  "delete_all unlinks a child that was not selected by `<child's entity_id> in eid`" if bad else
                   ("delete_all never unlinks" if not ndel else "delete_all does not walk below its own group"),
                   site=f.file + ":%d" % f.node.lineno, detail=describe_path(bad[0]) if bad else None)
 
